@@ -97,6 +97,12 @@ func init() {
 		}
 		return false
 	}
+	intrinsics[H("vParam")] = func(in *Interp, fr *frame, args []Value) Value {
+		if v, ok := in.X.Params[args[0].(string)]; ok {
+			return uint64(int64(v))
+		}
+		return args[1]
+	}
 	intrinsics[H("vRegister")] = func(in *Interp, fr *frame, args []Value) Value { return nil }
 	intrinsics[H("vRunSpawned")] = func(in *Interp, fr *frame, args []Value) Value {
 		in.runSpawned()
